@@ -19,8 +19,10 @@ Sources ==
   CASE Theme = "bits" ->
         << "|12 34 56| var p", "p open-bitstr 4 bits drop 8 bits var s close-bitstr", "s |f| bitstr-append var s2", "s bitstr-not drop",
            "p bitstr-not ! p", "s |0f| swap bitstr-append ! s", "p s bitstr-xor ! p", "s 8 bits", "p bitstr>hex print",
-           \* u (prelude): a slice that is the ONLY owner of its buffer, starts and ends off a byte boundary, stale bits behind it
-           "u |ff| bitstr-append", "u |f| bitstr-append" >>
+           \* the prelude leaves on the stack a slice that is the ONLY owner of its buffer within one interpreter (no variable,
+           \* no literal holds it), starts and ends off a byte boundary, with stale bits behind it: after a clone the two
+           \* copies share it, the first one to append must copy, the last one is alone with the buffer
+           "|ff| swap bitstr-append", "|0| swap bitstr-append", "dup |f| swap bitstr-append" >>
     [] Theme = "vars" ->
         << "5 var v", "v 1 + ! v", "[ 1 2 ] var w", "3 w push ! w", "{ 1 \"a\" } var m", "m 2 \"b\" insert ! m", "m \"a\" remove ! m",
            "w reverse ! w", "v w m", "drop" >>
@@ -38,7 +40,7 @@ Sources ==
 Calls == {Sources[k] : k \in 1..Len(Sources)}
 
 Prelude ==
-  CASE Theme = "bits"   -> "|12 34 56| var p p open-bitstr 4 bits drop 8 bits var s close-bitstr s |f| bitstr-append var s2 [ 0x12 0x3f ] >bitstr open-bitstr 4 bits drop 8 bits var u close-bitstr"
+  CASE Theme = "bits"   -> "|12 34 56| var p p open-bitstr 4 bits drop 8 bits var s close-bitstr s |f| bitstr-append var s2 [ 0x12 0x3f ] >bitstr open-bitstr 4 bits drop 8 bits close-bitstr"
     [] Theme = "vars"   -> "5 var v [ 1 2 ] var w { 1 \"a\" } var m"
     [] Theme = "defs"   -> ": f 1 ; : g f 2 * ; late h : u h 1 + ; : h 9 ; #( 3 const k #)"     \* u resolves h at its first call
     [] Theme = "cursor" -> "|aa bb| emit |01 02 03 04| open-bitstr u8"
